@@ -538,6 +538,34 @@ fn fam_codec(tag: &str, out: &mut Vec<Case>) {
         }
         Ok(())
     })));
+    // a data format that hands the visitor a sequence with an absurd size hint instead of a byte string: must end in an error, not in a panic
+    let id = format!("{}:codec:hostile-deserializer", tag);
+    out.push((id, Box::new(move || {
+        use serde::de::{DeserializeSeed, Deserializer, IntoDeserializer, SeqAccess, Visitor};
+        struct HostileSeq { left: usize, claim: usize }
+        impl<'de> SeqAccess<'de> for HostileSeq {
+            type Error = serde::de::value::Error;
+            fn next_element_seed<T: DeserializeSeed<'de>>(&mut self, seed: T) -> Result<Option<T::Value>, Self::Error> {
+                if self.left == 0 { return Ok(None); }
+                self.left -= 1;
+                seed.deserialize(1u8.into_deserializer()).map(Some)
+            }
+            fn size_hint(&self) -> Option<usize> { Some(self.claim) }
+        }
+        struct HostileDe { claim: usize }
+        impl<'de> Deserializer<'de> for HostileDe {
+            type Error = serde::de::value::Error;
+            fn deserialize_any<V: Visitor<'de>>(self, v: V) -> Result<V::Value, Self::Error> { v.visit_seq(HostileSeq { left: 8, claim: self.claim }) }
+            serde::forward_to_deserialize_any! { bool i8 i16 i32 i64 i128 u8 u16 u32 u64 u128 f32 f64 char str string bytes byte_buf option unit unit_struct newtype_struct seq tuple tuple_struct map struct enum identifier ignored_any }
+        }
+        for claim in [usize::MAX, usize::MAX / 2 + 1] {
+            let r = catch_unwind(AssertUnwindSafe(|| <RistrettoRangeProof as serde::Deserialize>::deserialize(HostileDe { claim })))
+                .map_err(|_| format!("deserialising from a sequence that claims {} elements panicked", claim))?;
+            obs("hostile-de", &[r.is_ok() as u8]);
+            if r.is_ok() { return Err("a proof was deserialised from eight bytes".into()); }
+        }
+        Ok(())
+    })));
     let id = format!("{}:codec:prover-outputs", tag);
     out.push((id, Box::new(move || {
         let mut rng = rng_for("codec2");
